@@ -955,6 +955,33 @@ pub fn run_case(tier: &str, seed: u64, idx: u64) -> CaseOut {
                 }
             }
         }
+        // a region that is exactly one intact record of a write-ahead log appears twice (a misdirected
+        // or repeated write): appended once more at the end, or repeated in place
+        if class == PathClass::Wal && len < 32_000 && (slice < 4 || thorough) {
+            let bytes = base.image.files[path].clone();
+            let mut records: Vec<(usize, usize)> = vec![];
+            let mut o = 0usize;
+            while o + 7 <= bytes.len() {
+                let l = u16::from_le_bytes([bytes[o + 4], bytes[o + 5]]) as usize;
+                if bytes[o + 6] != 0 || o + 7 + l > bytes.len() {
+                    break;
+                }
+                records.push((o, 7 + l));
+                o += 7 + l;
+            }
+            if !records.is_empty() {
+                let picks = [0usize, records.len() - 1, rng.usize_below(records.len()), rng.usize_below(records.len())];
+                let (start, n) = records[picks[(slice % 4) as usize]];
+                let copy: Vec<u8> = bytes[start..start + n].to_vec();
+                let copy2 = copy.clone();
+                mutations.push((start, format!("record of {n} bytes appended once more at the end"), Box::new(move |b: &mut Vec<u8>| b.extend_from_slice(&copy))));
+                mutations.push((start, format!("record of {n} bytes repeated in place"), Box::new(move |b: &mut Vec<u8>| {
+                    let tail = b.split_off(start + n);
+                    b.extend_from_slice(&copy2);
+                    b.extend_from_slice(&tail);
+                })));
+            }
+        }
         // the footer of a table (two block handles as varints, padding, magic number) is covered by no
         // checksum: stretches of bytes with the continuation bit set (0xff, 0x80) laid over each
         // position of the handles, the magic number left alone
@@ -993,6 +1020,9 @@ pub fn run_case(tier: &str, seed: u64, idx: u64) -> CaseOut {
                 continue; // the mutation did not change the byte (zeroing a zero)
             }
             let mut structure = structure_at(&base, path, offset);
+            if what.starts_with("record of ") {
+                structure = "log-record-duplicated";
+            }
             if let Some(run) = what.split(" run of ").nth(1).and_then(|n| n.parse::<usize>().ok()) {
                 // a run is named after the most consequential field it covers: a fragment header's
                 // length (what decides where the reader goes next), else its type, else where it starts
